@@ -205,6 +205,8 @@ func fill(r *core.Rand, v reflect.Value, depth int) {
 type op struct {
 	name string
 	run  func() uint64
+	// ident, when set, returns an object whose identity (==) every caller must agree on
+	ident func() any
 }
 
 func hashRes(b []byte, err error) uint64 {
@@ -241,7 +243,7 @@ func opsFor(prefix string, t reflect.Type, v reflect.Value, bigMap map[string]an
 	val := v.Interface()
 	ptr := v.Addr().Interface()
 	guard := func(name string, f func() uint64) op {
-		return op{prefix + name, func() (h uint64) {
+		return op{name: prefix + name, run: func() (h uint64) {
 			defer func() {
 				if r := recover(); r != nil {
 					h = core.HashString("panic:" + core.PanicSig(r))
@@ -297,6 +299,7 @@ func opsFor(prefix string, t reflect.Type, v reflect.Value, bigMap map[string]an
 			}
 			return h
 		}),
+		{name: prefix + "proto.TypeOf(identity)", run: func() uint64 { return 1 }, ident: func() any { return proto.TypeOf(t) }},
 		guard("thrift.Marshal(compact)", func() uint64 { return hashRes(thrift.Marshal(tCmp, val)) }),
 		guard("thrift.Marshal(binary)", func() uint64 { return hashRes(thrift.Marshal(tBin, ptr)) }),
 		guard("thrift.Unmarshal(compact)", func() uint64 {
@@ -330,7 +333,7 @@ func runCase(c *core.Case) {
 	c.Journal("concurrent-first-use")
 	// 1. types never seen before in this process, plus one declared recursive type (first use
 	// the first time its number comes up) and the values
-	ntypes := r.Range(2, 5)
+	ntypes := r.Range(3, 6)
 	rec := recTypes[c.Index%len(recTypes)]
 	var ops []op
 	bigMap := map[string]any{}
@@ -342,6 +345,8 @@ func runCase(c *core.Case) {
 		var t reflect.Type
 		if k == 0 {
 			t = rec
+		} else if k == 1 {
+			t = peerTypes[c.Index%len(peerTypes)] // its mutually recursive partner, used on its own
 		} else {
 			var rp reflect.Type
 			if r.Bool() {
@@ -381,16 +386,21 @@ func runCase(c *core.Case) {
 	overlap0 := hs.overlap
 	hs.mu.Unlock()
 	results := make([][]uint64, G)
+	idents := make([][]any, G)
 	var start, done sync.WaitGroup
 	start.Add(1)
 	for g := 0; g < G; g++ {
 		results[g] = make([]uint64, len(ops))
+		idents[g] = make([]any, len(ops))
 		done.Add(1)
 		go func(g int) {
 			defer done.Done()
 			start.Wait()
 			for _, i := range perms[g] {
 				results[g][i] = ops[i].run()
+				if ops[i].ident != nil {
+					idents[g][i] = ops[i].ident()
+				}
 			}
 		}(g)
 	}
@@ -403,6 +413,20 @@ func runCase(c *core.Case) {
 			if results[g][i] != results[0][i] {
 				name := ops[i].name[strings.IndexByte(ops[i].name, ':')+1:]
 				c.Violation("concurrent|"+name, "goroutines-disagree", fmt.Sprintf("%s returned different results to goroutines 0 and %d (%016x vs %016x) with %d goroutines, GOMAXPROCS %d, types %v", ops[i].name, g, results[0][i], results[g][i], G, procs, clip(fmt.Sprint(tnames), 300)), w)
+				break
+			}
+		}
+	}
+	// values that have an identity (proto.Type) are the same object for every caller, and for
+	// a later call (running alone, TypeOf(t) == TypeOf(t) always holds)
+	for i := range ops {
+		if ops[i].ident == nil {
+			continue
+		}
+		later := ops[i].ident()
+		for g := 0; g < G; g++ {
+			if idents[g][i] != later {
+				c.Violation("concurrent|proto.TypeOf", "callers-got-different-objects", fmt.Sprintf("%s: goroutine %d of %d obtained a proto.Type that is not the one later calls return (TypeOf(t) == TypeOf(t) holds for every sequential use); types %v", ops[i].name, g, G, clip(fmt.Sprint(tnames), 200)), w)
 				break
 			}
 		}
@@ -603,7 +627,7 @@ func sameShared(a, b *Shared) bool {
 func init() {
 	core.Register(&core.Monitor{
 		Prop:    "C09",
-		Rule:    "first-use: per case 2-5 types the process has never seen (reflect.StructOf types whose first field name carries seed, case and type number; one of 240 declared mutually recursive type pairs) with json, protobuf and thrift tags, one value each, and 15 calls per type (json.Marshal by value and pointer, MarshalIndent, Encoder, Unmarshal, Tokenizer, Marshal of a map[string]any; proto.Marshal, Size, Unmarshal, TypeOf; thrift.Marshal and Unmarshal in both protocols). 2-32 goroutines, released together under GOMAXPROCS 2-16, each run all calls in their own order; the verif hooks yield 0-15 times at every codec-cache miss and store. Checked: every goroutine gets the same result for every call; a sequential round afterwards gets it too; the digest of the results equals the digest of the same case run by one goroutine in a separate GOMAXPROCS=1 process (supervisor); the race detector reports nothing (race build, log scanned by the supervisor); the pool hooks never see a pooled object handed out while held or returned while not held. shared: 16 goroutines x 60 iterations of json/proto/thrift round trips of per-goroutine values of one shared type (maps with up to 12 entries). Evidence counts calls, hook events per pool and cache, overlapping constructions of one type, and distinct cache-event orders.",
+		Rule:    "first-use: per case 3-6 types the process has never seen (reflect.StructOf types whose first field name carries seed, case and type number; both halves of one of 240 declared mutually recursive type pairs, the second reached from the first through a map value and used on its own as well) with json, protobuf and thrift tags, one value each, and 15 calls per type (json.Marshal by value and pointer, MarshalIndent, Encoder, Unmarshal, Tokenizer, Marshal of a map[string]any; proto.Marshal, Size, Unmarshal, TypeOf; thrift.Marshal and Unmarshal in both protocols). 2-32 goroutines, released together under GOMAXPROCS 2-16, each run all calls in their own order; the verif hooks yield 0-15 times at every codec-cache miss and store. Checked: every goroutine gets the same result for every call, and the identical proto.Type object; a sequential round afterwards gets it too; the digest of the results equals the digest of the same case run by one goroutine in a separate GOMAXPROCS=1 process (supervisor); the race detector reports nothing (race build, log scanned by the supervisor); the pool hooks never see a pooled object handed out while held or returned while not held. shared: 16 goroutines x 60 iterations of json/proto/thrift round trips of per-goroutine values of one shared type (maps with up to 12 entries). Evidence counts calls, hook events per pool and cache, overlapping constructions of one type, and distinct cache-event orders.",
 		Trusted: []string{"the Go race detector for the no-data-race clause", "the solo process as the 'running alone' reference", "sync.Pool itself (the hook observes the package's use of it)"},
 		Subs: []core.Sub{
 			{Name: "first-use", N: core.Const(240, 6000), Run: runCase, Serial: true},
